@@ -164,11 +164,11 @@ def scanner_rule(ctx, rid):
     ctx.floor(rid, "log scanners that group records into transactions", scanners, 2)
 
 
-def _bitmap_flush_rule(ctx):
+def _bitmap_flush_rule(ctx, rid="C02.5"):
     """C02.5: an allocation-bitmap change is flushed before the Pager method that made it reports success"""
     from .. import paths
     F = ctx.facts
-    ctx.rule("C02.5", "in every Pager method that flips an allocation bit, each success return after the flip passes through flush_meta_and_bitmap (the on-disk bitmap never lags behind pages a committed WAL record may reference)")
+    ctx.rule(rid, "in every Pager method that flips an allocation bit, each success return after the flip passes through flush_meta_and_bitmap (the on-disk bitmap never lags behind pages a committed WAL record may reference)")
     SET = "nervusdb_storage::pager::Bitmap::set_allocated"
     FLUSH = "nervusdb_storage::pager::Pager::flush_meta_and_bitmap"
     n = 0
@@ -182,8 +182,8 @@ def _bitmap_flush_rule(ctx):
         for k, c in enumerate(flips):
             n += 1
             rets = paths.success_returns_reachable(b, [c.target], avoid=flushes) if (c.target is not None and c.target not in flushes) else []
-            ctx.instance("C02.5", "%s: bit flip #%d reaches a success return without flush_meta_and_bitmap: %s" % (i.split("::")[-1], k, bool(rets)))
-            ctx.oblige(not rets, "C02.5", "%s:bit-flip#%d-unflushed" % (i.split("::")[-1], k),
+            ctx.instance(rid, "%s: bit flip #%d reaches a success return without flush_meta_and_bitmap: %s" % (i.split("::")[-1], k, bool(rets)))
+            ctx.oblige(not rets, rid, "%s:bit-flip#%d-unflushed" % (i.split("::")[-1], k),
                        "%s can return Ok after changing an allocation bit only in memory: after a crash the page is unallocated on disk although a committed "
                        "(fsynced) manifest / checkpoint record references it, and open fails with PageNotAllocated" % i.split("::")[-1], c.loc())
-    ctx.floor("C02.5", "allocation-bit flips in Pager methods", n, 2)
+    ctx.floor(rid, "allocation-bit flips in Pager methods", n, 2)
